@@ -20,7 +20,17 @@ func main() {
 	tier := flag.String("tier", "quick", "quick or thorough")
 	root := flag.String("root", "/repo", "tree to analyse")
 	verif := flag.String("verif", "/verif", "verification directory (evidence, known findings)")
+	dumpFields := flag.Bool("dump-field-table", false, "print the reference table of uniquely typed unexported struct fields of the tree (maintenance: regenerates an/fieldtable.go)")
 	flag.Parse()
+	if *dumpFields {
+		p, err := an.Load(an.LoadOpts{Root: *root})
+		if err != nil {
+			fmt.Printf("INFRA: cannot load %s: %v\n", *root, err)
+			os.Exit(2)
+		}
+		an.DumpFieldTable(p, os.Stdout)
+		return
+	}
 	if env := os.Getenv("VERIF_TIER"); env != "" && !isFlagSet("tier") {
 		*tier = env
 	}
